@@ -85,3 +85,21 @@ func VerifC15_DecHeader() {
 	}
 	vrt.Assert(vrt.AllocBytes() <= int64(2*n+64), "C15.dec Header allocation proportional to input")
 }
+
+// VerifC15_Open: Open on an arbitrary (corrupt, truncated, hostile) file never panics and
+// never allocates out of proportion to the file: at most one page plus twice the file size.
+func VerifC15_Open() {
+	sizes := vrtHostileSizes()
+	n := sizes[vrt.Choose("size", len(sizes))]
+	b := vrt.Bytes("b", n)
+	path := vrt.TempFile("c15.wsp", b)
+	vrt.Reach("pre")
+	vrt.AllocLimit(4096 + 2*n + 4096)
+	w, err := Open(path)
+	if err == nil {
+		vrt.Reach("opened")
+		vrt.Assert(int(w.Header().archiveCount) == len(w.Header().archiveInfoList), "C15.open header consistent")
+		_ = w.Close()
+	}
+	vrt.Assert(vrt.AllocBytes() <= int64(4096+2*n+4096), "C15.open allocation proportional to the file")
+}
